@@ -370,8 +370,68 @@ def conflicting_parameters(ctx, dist):
     return len(req) + len(dec)
 
 
+def zip_placement(ctx, dist):
+    """compression is honoured only when "zip" is in the PROTECTED header, on both sides (implementation only; the
+    ciphertext of AES-GCM is as long as what was encrypted, so the length shows whether the plaintext was deflated)"""
+    import zlib
+    import jwsgen as G
+    rep = ctx["rep"]
+    bdir = ctx["bdir"]
+    rnd = random.Random(ctx["seed"] + 16)
+    J = G.dumps
+    n = 0
+    pt = b"compressible " * 150
+    co = zlib.compressobj(9, zlib.DEFLATED, -15)
+    deflated = co.compress(pt) + co.flush()
+    for enc, klen_ in (("A128GCM", 16), ("A256GCM", 32), ("A128CBC-HS256", 32)):
+        key = G.oct_key(rnd, klen_)
+        base = {"alg": "dir", "enc": enc}
+        places = {
+            "protected": ({"protected": dict(base, zip="DEF")}, None, True),
+            "protected (encoded)": ({"protected": G.b64(J(dict(base, zip="DEF")).encode())}, None, True),
+            "shared unprotected": ({"protected": base, "unprotected": {"zip": "DEF"}}, None, False),
+            "per-recipient": ({"protected": base}, {"header": {"zip": "DEF"}}, False),
+            "unprotected only, nothing protected": ({"unprotected": dict(base, zip="DEF")}, None, False),
+            "absent": ({"protected": base}, None, False),
+        }
+        req = ["jweenc\t%s\t%s\t%s\t%s" % (J(t), "-" if r is None else J(r), J(key), pt.hex()) for t, r, _ in places.values()]
+        outs = G.harness(bdir, req)
+        dec = []
+        for (pl, (t, r, want)), rq, o in zip(places.items(), req, outs):
+            n += 1
+            if o.startswith("CRASH") or o == "ERR":
+                rep.violation("zip-placement:enc-failed:" + pl, "jose_jwe_enc with zip %s failed: %s" % (pl, o[:80]), {"case": rq[:600]})
+                continue
+            ctl = len(G.unb64(json.loads(o)["ciphertext"]))
+            compressed = ctl < len(pt) // 2
+            if compressed != want:
+                rep.violation("zip-placement:producer:" + pl.split(",")[0].split(" (")[0], "zip given in: %s -- the producer %s the plaintext (%d plaintext octets, %d ciphertext octets, %s)"
+                              % (pl, "compressed" if compressed else "did not compress", len(pt), ctl, enc), {"case": rq[:600], "implementation": o[:300]})
+            dec.append(("jwedec\t%s\t-\t%s" % (o, J(key)), pl))
+        for (c, pl), o in zip(dec, G.harness(bdir, [x[0] for x in dec])):
+            n += 1
+            if o != "OK " + pt.hex():
+                rep.violation("zip-placement:roundtrip:" + pl.split(",")[0].split(" (")[0], "zip given in: %s -- the product does not decrypt to the plaintext: %s" % (pl, o[:60]), {"case": c[:800]})
+        # consumer: a token whose PLAINTEXT is a raw deflate stream, encrypted without zip; adding an (unauthenticated)
+        # "zip" to the shared unprotected or per-recipient header must not make the consumer inflate it
+        o = G.harness(bdir, ["jweenc\t%s\t-\t%s\t%s" % (J({"protected": base}), J(key), deflated.hex())])[0]
+        if o.startswith("{"):
+            tok = json.loads(o)
+            variants = {"untouched": tok, "shared unprotected": dict(tok, unprotected={"zip": "DEF"}), "per-recipient": dict(tok, header={"zip": "DEF"})}
+            dl = ["jwedec\t%s\t-\t%s" % (J(v), J(key)) for v in variants.values()]
+            sl = ["jwedecio\t%s\t-\t%s\t%d" % (J(v), J(key), len(tok["ciphertext"])) for v in variants.values()]
+            for pl, c, od in zip(list(variants) * 2, dl + sl, G.harness(bdir, dl + sl)):
+                n += 1
+                got = od.split(" ")[-1] if od.startswith(("OK", "1 ", "0 ")) else od
+                if got != deflated.hex():
+                    rep.violation("zip-placement:consumer:" + pl, "a token encrypted without zip, with \"zip\":\"DEF\" added to the %s header: the consumer does not return the %d octets that were encrypted (%s)"
+                                  % (pl, len(deflated), "it returns %d octets" % (len(got) // 2) if all(ch in "0123456789abcdef" for ch in got) else od[:40]), {"case": c[:800]})
+    dist["zip in each header position: producer, round trip, consumer"] = n
+    return n
+
+
 def correspond(ctx):
-    ncf = conflicting_parameters(ctx, collections.Counter())
+    ncf = conflicting_parameters(ctx, collections.Counter()) + zip_placement(ctx, collections.Counter())
     cases, dist = gen(ctx["tier"], ctx["seed"], ctx["bdir"])
     dist["conflicting algorithm parameters (apu/apv/p2c/alg/enc in two headers), end to end"] = ncf
     # drop wrapalg cases whose key cannot be used with the algorithm the header / the suggestion names:
